@@ -650,11 +650,14 @@ def gen_body(r, env, fns, blobs, n, depth, in_loop, names):
         elif x < 0.6:
             body.append(("assert", gen_int(r, env, fns, 1), gen_int(r, env, fns, 1)))
         elif x < 0.72 and depth > 0:
-            branches = [(gen_bool(r, env, fns, 2), gen_body(r, env.copy(), fns, blobs, r.randint(1, 3), depth - 1,
-                                                           in_loop, names))
-                        for _ in range(r.randint(1, 2))]
-            els = gen_body(r, env.copy(), fns, blobs, r.randint(1, 2), depth - 1, in_loop, names) \
-                if r.random() < 0.5 else None
+            def branch(k):
+                # an `if` is an expression: every branch must end in a statement without a value
+                b = gen_body(r, env.copy(), fns, blobs, k, depth - 1, in_loop, names)
+                if not b or b[-1][0] not in ("def", "assign", "break", "continue", "unreachable"):
+                    b.append(("def", names(), ("int", 0), True, None))
+                return b
+            branches = [(gen_bool(r, env, fns, 2), branch(r.randint(1, 3))) for _ in range(r.randint(1, 2))]
+            els = branch(r.randint(1, 2)) if r.random() < 0.5 else None
             body.append(("if", branches, els))
         elif x < 0.8 and depth > 0:
             inner = gen_body(r, env.copy(), fns, blobs, r.randint(1, 3), depth - 1, True, names)
